@@ -13,6 +13,13 @@
    P-level: what a brand-new context with the same registry and config and empty storage would
    compute (Expected), the key as a function of the true lineage.
 
+   Fuzzy matching (context options fuzzy_for / fuzzy_for_options; StorageFrontend._matches / _filter_lineage,
+   DataDirectory._find, Context._find_options, the "Not saving ... while fuzzy matching" rule): fz is the set of
+   data types, fzo the set of (tracked) option names ignored when a stored lineage is compared with the wanted one;
+   an exact match is preferred, otherwise any stored entry whose filtered lineage equals the filtered wanted lineage
+   is accepted (the directory scan order decides which: nondeterministic here), otherwise the type is computed from
+   its (possibly fuzzily found) input; nothing is written while fz or fzo is non-empty.
+
    Repaired = TRUE: register() drops the plugin cache (the "fix:" commit); FALSE: as found.       *)
 EXTENDS Naturals, Sequences, FiniteSets, TLC
 
@@ -20,6 +27,7 @@ CONSTANTS Classes,    \* set of [t, name, ver, def, uid, nv]: class uid provides
                       \* classes with the same name and version are the same code by strax's contract, their output
                       \* carries nv, the effective tracked option value and the input it was computed from
           Repaired,
+          FzChoices, FzoChoices,   \* the values fuzzy_for / fuzzy_for_options may be set to (sets of types / of option numbers 1..3)
           MaxLen      \* bound on the history length (model checking only)
 
 T == 1..3
@@ -28,9 +36,13 @@ Vals == 0..2                  \* 0 = not set in the context config
 ClassesOf(t) == {c \in Classes : c.t = t}
 
 VARIABLES registry, config, cache, store,
+          fz, fzo,  \* context options fuzzy_for (data types) and fuzzy_for_options (option numbers)
           last,     \* observation of the last Get / KeyFor: [a, t, code, key]
           len
-vars == <<registry, config, cache, store, last, len>>
+vars == <<registry, config, cache, store, fz, fzo, last, len>>
+FuzzyOn == fz # {} \/ fzo # {}
+\* _filter_lineage: entries of fuzzy types dropped, fuzzy options dropped from every entry (option k belongs to type k)
+Filter(lin) == [k \in DOMAIN lin |-> IF k \in fz THEN <<"*">> ELSE IF k \in fzo THEN <<lin[k][1], lin[k][2]>> ELSE lin[k]]
 
 Eff(cls, cfg) == IF cfg[cls.t] # 0 THEN cfg[cls.t] ELSE cls.def
 Lin1(cls, cfg) == <<cls.name, cls.ver, Eff(cls, cfg)>>
@@ -55,53 +67,77 @@ Resolve(i, ch) ==
                   ELSE [h |-> CtxHash, p |-> (i :> rec)]
        IN <<rec, ch2>>
 
-\* load if stored under the resolved key, otherwise compute from the dependency's data and save
+\* load if stored under the resolved key; with fuzzy matching any stored entry that matches after filtering; otherwise compute
+\* from the dependency's data and (unless fuzzy matching is on) save.  The set of possible <<code, store'>> outcomes.
 RECURSIVE DataOf(_, _, _)
 DataOf(i, ch, st) ==
   LET rec == Resolve(i, ch)[1]
       hit == {s \in st : s.t = i /\ s.key = rec.lin}
-  IN IF hit # {} THEN <<(CHOOSE s \in hit : TRUE).code, st>>
-     ELSE LET d == IF i = 1 THEN <<0, st>> ELSE DataOf(i - 1, ch, st)
-              code == d[1] * 100 + rec.cls.nv * 10 + rec.val
-          IN <<code, d[2] \cup {[t |-> i, key |-> rec.lin, code |-> code]}>>
+      fhit == IF FuzzyOn THEN {s \in st : s.t = i /\ Filter(s.key) = Filter(rec.lin)} ELSE {}
+  IN IF hit # {} THEN {<<s.code, st>> : s \in hit}
+     ELSE IF fhit # {} THEN {<<s.code, st>> : s \in fhit}
+     ELSE LET D == IF i = 1 THEN {<<0, st>>} ELSE DataOf(i - 1, ch, st)
+          IN {LET code == d[1] * 100 + rec.cls.nv * 10 + rec.val
+              IN <<code, IF FuzzyOn THEN d[2] ELSE d[2] \cup {[t |-> i, key |-> rec.lin, code |-> code]}>> : d \in D}
 
 Init == /\ registry \in [T -> Classes] /\ \A k \in T : registry[k].t = k /\ registry[k] = CHOOSE c \in ClassesOf(k) : \A d \in ClassesOf(k) : c.uid <= d.uid
-        /\ config = [o \in Opts |-> 0] /\ cache = NoCache /\ store = {} /\ last = [a |-> "none", t |-> 0, code |-> 0, key |-> <<>>]
+        /\ config = [o \in Opts |-> 0] /\ cache = NoCache /\ store = {} /\ fz = {} /\ fzo = {} /\ last = [a |-> "none", t |-> 0, code |-> 0, key |-> <<>>]
         /\ len = 0
 
 SetConfig(o, v) == /\ config[o] # v /\ config' = [config EXCEPT ![o] = v]
-                   /\ UNCHANGED <<registry, cache, store>> /\ last' = [a |-> "set", t |-> o, code |-> v, key |-> <<>>]
+                   /\ UNCHANGED <<registry, cache, store, fz, fzo>> /\ last' = [a |-> "set", t |-> o, code |-> v, key |-> <<>>]
 Register(c) == /\ registry[c.t] # c /\ registry' = [registry EXCEPT ![c.t] = c]
                /\ cache' = IF Repaired THEN NoCache ELSE cache
-               /\ UNCHANGED <<config, store>> /\ last' = [a |-> "reg", t |-> c.t, code |-> c.uid, key |-> <<>>]
-NewContext == /\ cache # NoCache /\ cache' = NoCache /\ UNCHANGED <<registry, config, store>>
+               /\ UNCHANGED <<config, store, fz, fzo>> /\ last' = [a |-> "reg", t |-> c.t, code |-> c.uid, key |-> <<>>]
+NewContext == /\ cache # NoCache /\ cache' = NoCache /\ UNCHANGED <<registry, config, store, fz, fzo>>
               /\ last' = [a |-> "new", t |-> 0, code |-> 0, key |-> <<>>]
-Get(i) == LET r == Resolve(i, cache) d == DataOf(i, r[2], store) IN
-          /\ cache' = r[2] /\ store' = d[2] /\ UNCHANGED <<registry, config>>
-          /\ last' = [a |-> "get", t |-> i, code |-> d[1], key |-> r[1].lin]
+Get(i) == LET r == Resolve(i, cache) IN
+          \E d \in DataOf(i, r[2], store) :
+            /\ cache' = r[2] /\ store' = d[2] /\ UNCHANGED <<registry, config, fz, fzo>>
+            /\ last' = [a |-> "get", t |-> i, code |-> d[1], key |-> r[1].lin]
 KeyFor(i) == LET r == Resolve(i, cache) IN
-             /\ cache' = r[2] /\ UNCHANGED <<registry, config, store>>
+             /\ cache' = r[2] /\ UNCHANGED <<registry, config, store, fz, fzo>>
              /\ last' = [a |-> "key", t |-> i, code |-> 0, key |-> r[1].lin]
+
+\* set_context_config(fuzzy_for = S) / (fuzzy_for_options = S)
+SetFuzzy(S) == /\ fz' = S /\ UNCHANGED <<registry, config, cache, store, fzo>> /\ last' = [a |-> "fz", t |-> 0, code |-> 0, key |-> <<>>]
+SetFuzzyOpts(S) == /\ fzo' = S /\ UNCHANGED <<registry, config, cache, store, fz>> /\ last' = [a |-> "fzo", t |-> 0, code |-> 0, key |-> <<>>]
 
 \* the same steps without the "something changes" guards (used by the trace specification: a driver may set an
 \* option to the value it already has, or register the class that is already registered)
 SetConfigOrSame(o, v) == IF config[o] # v THEN SetConfig(o, v)
-                         ELSE UNCHANGED <<registry, config, cache, store>> /\ last' = [a |-> "set", t |-> o, code |-> v, key |-> <<>>]
+                         ELSE UNCHANGED <<registry, config, cache, store, fz, fzo>> /\ last' = [a |-> "set", t |-> o, code |-> v, key |-> <<>>]
 RegisterOrSame(c) == IF registry[c.t] # c THEN Register(c)
                      ELSE /\ cache' = IF Repaired THEN NoCache ELSE cache
-                          /\ UNCHANGED <<registry, config, store>> /\ last' = [a |-> "reg", t |-> c.t, code |-> c.uid, key |-> <<>>]
-NewOrSame == /\ cache' = NoCache /\ UNCHANGED <<registry, config, store>> /\ last' = [a |-> "new", t |-> 0, code |-> 0, key |-> <<>>]
+                          /\ UNCHANGED <<registry, config, store, fz, fzo>> /\ last' = [a |-> "reg", t |-> c.t, code |-> c.uid, key |-> <<>>]
+NewOrSame == /\ cache' = NoCache /\ UNCHANGED <<registry, config, store, fz, fzo>> /\ last' = [a |-> "new", t |-> 0, code |-> 0, key |-> <<>>]
 
 Step == \/ \E o \in Opts, v \in Vals : SetConfig(o, v)
         \/ \E c \in Classes : Register(c)
         \/ NewContext
+        \/ \E S \in FzChoices : fz # S /\ SetFuzzy(S)
+        \/ \E S \in FzoChoices : fzo # S /\ SetFuzzyOpts(S)
         \/ \E i \in T : Get(i) \/ KeyFor(i)
 Next == len < MaxLen /\ Step /\ len' = len + 1
 Spec == Init /\ [][Next]_vars
 
 (* ---------------------------------- P-level (C02) ---------------------------------- *)
 \* get_array returns what a brand-new context with the same settings and empty storage would compute
-NoStaleRead == last.a = "get" => last.code = Expected(last.t)
+NoStaleRead == (last.a = "get" /\ ~FuzzyOn) => last.code = Expected(last.t)
+\* with fuzzy matching, stored data is accepted exactly when its lineage differs from the true one only in the fuzzy parts:
+\* the exact entry if there is one, else any entry matching after filtering, else computed from what the input may be
+RECURSIVE FuzzyExpected(_)
+FuzzyExpected(i) ==
+  IF i = 0 THEN {0}
+  ELSE LET want == TrueLineage(i)
+           ex == {s \in store : s.t = i /\ s.key = want}
+           M == {s \in store : s.t = i /\ Filter(s.key) = Filter(want)}
+       IN IF ex # {} THEN {s.code : s \in ex}
+          ELSE IF M # {} THEN {s.code : s \in M}
+          ELSE {c * 100 + registry[i].nv * 10 + Eff(registry[i], config) : c \in FuzzyExpected(i - 1)}
+FuzzyAccepts == (last.a = "get" /\ FuzzyOn) => last.code \in FuzzyExpected(last.t)
+\* nothing computed under fuzzy matching is written
+NothingWrittenUnderFuzzy == [][FuzzyOn => store' = store]_vars
 \* the key is a function of the true lineage
 KeyIsLineage == last.a \in {"get", "key"} => last.key = TrueLineage(last.t)
 \* static laws of the key function: a tracked option / version / class change moves the keys of exactly the
